@@ -13,7 +13,7 @@ from .core import SimAbort  # noqa: F401  (re-exported for engines)
 # ---------------------------------------------------------------------------
 
 ALL_NET_KINDS = ("req_loss", "rep_loss", "rep_delay", "rep_dup",
-                 "req_delay", "req_dup")
+                 "req_delay", "req_dup", "rep_batch")
 CLOCK_KINDS = ("host_stall", "clock_jump_fwd", "clock_jump_back")
 MACHINE_KINDS = ("retryable_rc", "fatal_rc", "slow_machine")
 
@@ -250,7 +250,17 @@ class SimNetwork(object):
             self.world.fault("partition_drop")
             return
         for delay in self.policy.reply_fate(self.tape, self.world):
-            self.sim.after(delay + extra, sock._arrive, data)
+            pb = self.policy.rate("rep_batch")
+            if pb > 0 and self.tape.chance(pb):
+                # receive-side batching (interrupt coalescing, a busy host):
+                # the datagram sits in a queue the application cannot see yet
+                # and becomes readable together with the next datagram for
+                # that socket, or after a hold time well below one time-out
+                self.sim.after(delay + extra, sock._arrive_held, data,
+                               0.3 * self.policy.timeout *
+                               (1 + self.tape.draw(4)) / 4.0)
+            else:
+                self.sim.after(delay + extra, sock._arrive, data)
 
 
 class SimSocket(object):
@@ -260,6 +270,7 @@ class SimSocket(object):
         self.closed = False
         self.blocking = True
         self.inbox = collections.deque()
+        self.held = []          # arrived, not yet readable (rep_batch)
         net._next_port += 1
         self.port = net._next_port
         self.sent = 0
@@ -291,7 +302,26 @@ class SimSocket(object):
 
     def _arrive(self, data):
         if not self.closed:
+            if self.held:
+                self.net.world.fault("rep_batch")
+                self.inbox.extend(self.held)
+                del self.held[:]
             self.inbox.append(data)
+
+    def _arrive_held(self, data, hold):
+        if self.closed:
+            return
+        if self.held:
+            self._arrive(data)
+            return
+        self.held.append(data)
+        self.net.sim.trace.ev("held", len(data))
+        self.net.sim.after(hold, self._release)
+
+    def _release(self):
+        if self.held and not self.closed:
+            self.inbox.extend(self.held)
+        del self.held[:]
 
     def recv(self, n):
         self.net.sim.seam()
@@ -314,6 +344,7 @@ class SimSocket(object):
     def close(self):
         self.closed = True
         self.inbox.clear()
+        del self.held[:]
 
     def fileno(self):
         return self.port
